@@ -96,3 +96,90 @@ def satisfiable(constraints, timeout_ms=2000):
         s.add(c)
     r = s.check()
     return r  # z3.sat / unsat / unknown
+
+
+# ---------------------------------------------------------------------------------------------
+# Sound weakening for validity: replace the string theory by uninterpreted symbols.
+# z3's sequence solver answers `unknown` on some mixed string/arithmetic formulas whose string part
+# is irrelevant; if the abstracted formula is valid, so is the original (every string term becomes an
+# arbitrary element of an uninterpreted sort, every string operation an uninterpreted function,
+# distinct literals stay distinct).
+ABS = z3.DeclareSort('AbsStr')
+
+
+def abstract_strings(exprs):
+    cache, decls, lits = {}, {}, {}
+
+    def sort_of(s):
+        return ABS if s == z3.StringSort() else s
+
+    def rec(t):
+        key = t.get_id()
+        if key in cache:
+            return cache[key]
+        if z3.is_quantifier(t):
+            vs = [z3.Const(t.var_name(i), sort_of(t.var_sort(i))) for i in range(t.num_vars())]
+            body = rec(z3.substitute_vars(t.body(), *reversed([z3.Const(t.var_name(i), t.var_sort(i)) for i in range(t.num_vars())])))
+            r = z3.ForAll(vs, body) if t.is_forall() else z3.Exists(vs, body)
+            cache[key] = r
+            return r
+        if z3.is_app(t) and t.decl().kind() == z3.Z3_OP_SEQ_IN_RE:
+            r = z3.Bool('inre!' + str(abs(hash(t.sexpr())) % 10**10))
+            cache[key] = r
+            return r
+        if z3.is_string_value(t):
+            s = t.as_string()
+            if s not in lits:
+                lits[s] = z3.Const(f'lit!{len(lits)}', ABS)
+            cache[key] = lits[s]
+            return lits[s]
+        if not z3.is_app(t):
+            cache[key] = t
+            return t
+        kids = [rec(c) for c in t.children()]
+        d = t.decl()
+        touches = t.sort() == z3.StringSort() or any(c.sort() == z3.StringSort() for c in t.children())
+        if not touches:
+            r = d(*kids) if kids else t
+            try:
+                if kids and d.kind() != z3.Z3_OP_UNINTERPRETED:
+                    r = t.decl()(*kids)
+            except Exception:
+                pass
+            cache[key] = r
+            return r
+        if d.kind() == z3.Z3_OP_EQ:
+            r = kids[0] == kids[1]
+        elif d.kind() == z3.Z3_OP_DISTINCT:
+            r = z3.Distinct(*kids)
+        elif d.kind() == z3.Z3_OP_ITE:
+            r = z3.If(kids[0], kids[1], kids[2])
+        elif not kids:
+            r = z3.Const(d.name(), sort_of(t.sort()))
+        else:
+            name = 'abs!' + d.name() + '!' + '!'.join(str(sort_of(c.sort())) for c in t.children())
+            if name not in decls:
+                decls[name] = z3.Function(name, *[sort_of(c.sort()) for c in t.children()], sort_of(t.sort()))
+            r = decls[name](*kids)
+        cache[key] = r
+        return r
+    out = [rec(e) for e in exprs]
+    if len(lits) > 1:
+        out.append(z3.Distinct(*lits.values()))
+    return out
+
+
+_prove_plain = prove
+
+
+def prove(hyps, goal, timeout_ms=None, strings=False):
+    st, model, backend, secs, txt = _prove_plain(hyps, goal, timeout_ms, strings)
+    if st == 'undecided':
+        try:
+            ab = abstract_strings(list(hyps) + [z3.Not(goal)])
+            r, _, be2, secs2, _ = check_sat(ab, timeout_ms, False, want_model=False)
+            if r == 'unsat':
+                return 'discharged', None, be2 + '(strings abstracted)', secs + secs2, 'unsat after abstracting the string theory'
+        except Exception:
+            pass
+    return st, model, backend, secs, txt
